@@ -26,7 +26,10 @@ HERE = os.path.dirname(os.path.abspath(__file__))
 VERIF = os.path.dirname(HERE)
 LEAN = os.path.join(VERIF, "lean")
 REPO = os.environ.get("FLEXSTACK_REPO", "/repo")
-EVIDENCE_DIR = os.path.join(VERIF, "evidence")
+# evidence/ describes runs against /repo itself; a run pointed at another tree (seed tests, builders' worktrees)
+# writes to replays/evidence_other_tree/ (git-ignored) so that it never clobbers the registered evidence
+EVIDENCE_DIR = (os.path.join(VERIF, "evidence") if os.path.realpath(REPO) == os.path.realpath("/repo")
+                else os.path.join(VERIF, "replays", "evidence_other_tree"))
 REPLAY_DIR = os.path.join(VERIF, "replays")
 CORPUS_DIR = os.path.join(VERIF, "corpus")
 ALLOWED_AXIOMS = {"propext", "Classical.choice", "Quot.sound"}
